@@ -111,7 +111,7 @@ VARIABLES
     err,        \* s.err: the first error, NIL if none
     writer,     \* [pc : select | write | done, buf, inNil, reqNil, begin]
     toAgent,    \* [q, closed, stray : requests in it that udf.Server did not write]
-    agent,      \* [seen, restored, faulted, fkind, alive]
+    agent,      \* [seen : data messages, reqs : requests handled, restored, faulted, fkind, alive]
     fromAgent,  \* [q, closed]
     reader,     \* [pc : read | got | out | done, msg, hasBegin/begin (s.begin), inBatch/points (s.points), pend]
     kaBuf,      \* entries in s.keepalive (capacity 1)
@@ -134,7 +134,7 @@ Init ==
     /\ err = NIL
     /\ writer = [pc |-> "select", buf |-> <<>>, inNil |-> FALSE, reqNil |-> FALSE, begin |-> NIL]
     /\ toAgent = [q |-> <<>>, closed |-> FALSE, stray |-> 0]
-    /\ agent = [seen |-> 0, restored |-> NIL, faulted |-> FALSE, fkind |-> NIL, alive |-> TRUE]
+    /\ agent = [seen |-> 0, reqs |-> 0, restored |-> NIL, faulted |-> FALSE, fkind |-> NIL, alive |-> TRUE]
     /\ fromAgent = [q |-> <<>>, closed |-> FALSE]
     /\ reader = [pc |-> "read", msg |-> NIL, hasBegin |-> FALSE, begin |-> NIL, inBatch |-> FALSE, points |-> <<>>, pend |-> NIL]
     /\ kaBuf = 0 /\ respC = [k \in ReqKinds |-> <<>>]
@@ -203,6 +203,16 @@ CallReaderGone(c) ==
     /\ IF respC[c.kind] # <<>>
        THEN Finish(c, NIL, Head(respC[c.kind])) /\ respC' = [respC EXCEPT ![c.kind] = Tail(@)]
        ELSE Finish(c, "closed", NIL) /\ UNCHANGED respC
+    /\ UNCHANGED <<pump, stopper, stopRet, outs, outClosed, owner, mu, want, flags, err, writer, toAgent,
+                   agent, fromAgent, reader, kaBuf, ticker, watcher, crashed, diag, wireSeen>>
+
+\* case <-s.stopping (fix: a call in flight when Stop is requested does not make Stop wait for a UDF that never takes or
+\* answers the request - or answers with a response of another kind): a response that is already there is taken
+CallStopped(c) ==
+    /\ HangFix /\ caller.pc \in {"pending", "waiting"} /\ flags.stopping
+    /\ IF caller.pc = "waiting" /\ respC[c.kind] # <<>>
+       THEN Finish(c, NIL, Head(respC[c.kind])) /\ respC' = [respC EXCEPT ![c.kind] = Tail(@)]
+       ELSE Finish(c, "stopped", NIL) /\ UNCHANGED respC
     /\ UNCHANGED <<pump, stopper, stopRet, outs, outClosed, owner, mu, want, flags, err, writer, toAgent,
                    agent, fromAgent, reader, kaBuf, ticker, watcher, crashed, diag, wireSeen>>
 
@@ -287,15 +297,32 @@ FaultMsgs(f, w) ==
       [] f = "unknown"       -> <<[t |-> "none"]>>      \* empty frame: a Response without a message
       [] f = "readerr"       -> <<[t |-> "garbage"]>>   \* bytes ReadMessage refuses: oversized header, no protobuf, truncated frame
       [] f = "errorResp"     -> <<[t |-> "error"]>>
-      [] f = "unsolInfo"     -> <<[t |-> "info", rid |-> 0, val |-> "stale"], [t |-> "info", rid |-> 0, val |-> "stale"], w>>
-      [] f = "unsolInit"     -> <<[t |-> "init", rid |-> 0, val |-> "stale"], [t |-> "init", rid |-> 0, val |-> "stale"], w>>
-      [] f = "unsolSnapshot" -> <<[t |-> "snapshot", rid |-> 0, val |-> "stale"], [t |-> "snapshot", rid |-> 0, val |-> "stale"], w>>
-      [] f = "unsolRestore"  -> <<[t |-> "restore", rid |-> 0, val |-> "stale"], [t |-> "restore", rid |-> 0, val |-> "stale"], w>>
+      [] f = "unsolInfo"     -> <<[t |-> "info", rid |-> 0, val |-> [stale |-> TRUE]], [t |-> "info", rid |-> 0, val |-> [stale |-> TRUE]], w>>
+      [] f = "unsolInit"     -> <<[t |-> "init", rid |-> 0, val |-> [stale |-> TRUE]], [t |-> "init", rid |-> 0, val |-> [stale |-> TRUE]], w>>
+      [] f = "unsolSnapshot" -> <<[t |-> "snapshot", rid |-> 0, val |-> [stale |-> TRUE]], [t |-> "snapshot", rid |-> 0, val |-> [stale |-> TRUE]], w>>
+      [] f = "unsolRestore"  -> <<[t |-> "restore", rid |-> 0, val |-> [stale |-> TRUE]], [t |-> "restore", rid |-> 0, val |-> [stale |-> TRUE]], w>>
       [] f = "unsolKeepalive" -> <<[t |-> "keepalive"], [t |-> "keepalive"], w>>
+\* A peer that answers a REQUEST wrongly.  The protocol has no request ids: udf.Server routes a response by its KIND into the
+\* 1-slot buffer of that kind (doResponse), so a response that does not answer the outstanding request of its kind
+\* is either parked in the buffer of its own kind (where the next call of that kind finds it: "stale") or, when that
+\* buffer is occupied, reported ("received message without requesting it") and dropped; the outstanding request stays
+\* outstanding until the peer answers it, the UDF stops/aborts or the connection ends.  An error for that peer at
+\* most: never a panic (the caller asserts the kind it asked for - it must only ever be handed that kind).
+OtherKinds == {"info", "init", "snapshot", "restore", "keepalive"}
+ReqFaultNames == {"wrong", "wrongThenRight", "rightThenWrong", "twice"}
+ReqFaults == {n \o ":" \o k : n \in ReqFaultNames \ {"twice"}, k \in OtherKinds} \cup {"twice:same"}
+NameOf(f) == CHOOSE n \in ReqFaultNames : \E k \in OtherKinds \cup {"same"} : f = n \o ":" \o k
+OtherOf(f) == CHOOSE k \in OtherKinds \cup {"same"} : f = NameOf(f) \o ":" \o k
+Wrong(k) == IF k = "keepalive" THEN [t |-> "keepalive"] ELSE [t |-> k, rid |-> 0, val |-> [stale |-> TRUE]]
+ReqFaultMsgs(f, right) ==
+    CASE NameOf(f) = "wrong"          -> <<Wrong(OtherOf(f))>>
+      [] NameOf(f) = "wrongThenRight" -> <<Wrong(OtherOf(f)), right>>
+      [] NameOf(f) = "rightThenWrong" -> <<right, Wrong(OtherOf(f))>>
+      [] NameOf(f) = "twice"          -> <<right, [right EXCEPT !.rid = 0]>>
 AResp(w) ==
-    CASE w.t \in {"info", "init"} -> [t |-> w.t, rid |-> w.rid, val |-> "ok"]
+    CASE w.t \in {"info", "init"} -> [t |-> w.t, rid |-> w.rid, val |-> [ok |-> TRUE]]
       [] w.t = "snapshot" -> [t |-> "snapshot", rid |-> w.rid, val |-> [seen |-> agent.seen, restored |-> agent.restored]]
-      [] w.t = "restore"  -> [t |-> "restore", rid |-> w.rid, val |-> "ok"]
+      [] w.t = "restore"  -> [t |-> "restore", rid |-> w.rid, val |-> [ok |-> TRUE]]
       [] w.t = "keepalive" -> [t |-> "keepalive"]
 AStep ==
     /\ agent.alive /\ toAgent.q # <<>>
@@ -306,7 +333,7 @@ AStep ==
                /\ \/ /\ Len(fromAgent.q) < PipeCap
                      /\ fromAgent' = [fromAgent EXCEPT !.q = Append(@, Echo(w))]
                      /\ agent' = [agent EXCEPT !.seen = @ + 1]
-                  \/ \E f \in Faults \ {"close", "die"} :
+                  \/ \E f \in (Faults \ {"close", "die", "emptyReq", "extraKeepalive"}) \ ReqFaults :
                      /\ ~agent.faulted /\ Len(fromAgent.q) + 2 < PipeCap
                      /\ fromAgent' = [fromAgent EXCEPT !.q = @ \o FaultMsgs(f, w)]
                      /\ agent' = [agent EXCEPT !.seen = @ + 1, !.faulted = TRUE, !.fkind = f]
@@ -318,10 +345,17 @@ AStep ==
                \* it - nothing is handed to the handler, nothing is answered (in particular NOT the previous request
                \* again: ReadMessage decodes into one reused Request value and must reset it)
                THEN UNCHANGED <<fromAgent, agent, wireSeen>>
-               ELSE /\ Len(fromAgent.q) < PipeCap
-                    /\ fromAgent' = [fromAgent EXCEPT !.q = Append(@, AResp(w))]
-                    /\ agent' = IF w.t = "restore" THEN [agent EXCEPT !.restored = w.data] ELSE agent
-                    /\ UNCHANGED wireSeen
+               ELSE /\ UNCHANGED wireSeen
+                    /\ \/ /\ Len(fromAgent.q) < PipeCap
+                          /\ fromAgent' = [fromAgent EXCEPT !.q = Append(@, AResp(w))]
+                          /\ agent' = [agent EXCEPT !.reqs = IF w.t = "keepalive" THEN @ ELSE @ + 1,
+                                                    !.restored = IF w.t = "restore" THEN w.data ELSE @]
+                       \/ \E f \in Faults \cap ReqFaults :      \* the answer to a (non-keepalive) request goes wrong
+                          /\ ~agent.faulted /\ w.t # "keepalive" /\ OtherOf(f) # w.t
+                          /\ Len(fromAgent.q) + 1 < PipeCap
+                          /\ fromAgent' = [fromAgent EXCEPT !.q = @ \o ReqFaultMsgs(f, AResp(w))]
+                          /\ agent' = [agent EXCEPT !.reqs = @ + 1, !.faulted = TRUE, !.fkind = f,
+                                                    !.restored = IF w.t = "restore" THEN w.data ELSE @]
     /\ UNCHANGED <<pump, caller, results, stopper, stopRet, outs, outClosed, owner, mu, want, flags, err, writer,
                    reader, kaBuf, respC, ticker, watcher, crashed, diag>>
 \* a request udf.Server itself never writes shows up in the agent's input between two frames: an empty one
@@ -551,7 +585,7 @@ CurCall == IF MoreCalls THEN Calls[caller.i + 1] ELSE NoCall
 \* everything the server, the peer and the consumer do on their own; c = the call in progress (if active)
 Internal(c, active) ==
     \/ PumpSeesAbort
-    \/ (active /\ (CallEnter(c) \/ CallAborted(c) \/ CallReturn(c) \/ CallReaderGone(c) \/ WTakeCall(c)))
+    \/ (active /\ (CallEnter(c) \/ CallAborted(c) \/ CallReturn(c) \/ CallReaderGone(c) \/ CallStopped(c) \/ WTakeCall(c)))
     \/ WTakeIn \/ WInClosed \/ WTakeTick \/ WReqClosed \/ WExit \/ WAborting \/ WWrite
     \/ AStep \/ AEOF \/ AgentDies \/ StrayMC
     \/ RRead \/ RHandle \/ ROut \/ ROutAborted
@@ -612,7 +646,7 @@ BacklogSurvivesClose == (reader.pc = "done" /\ err = NIL) => fromAgent.q = <<>>
 ClosedIsFinal == outClosed => reader.pc = "done"
 
 \* the response handed to a call is the peer's answer to exactly that request
-Unsol == {"unsolInfo", "unsolInit", "unsolSnapshot", "unsolRestore"}
+Unsol == {"unsolInfo", "unsolInit", "unsolSnapshot", "unsolRestore"} \cup ReqFaults
 ResponsesMatchRequests ==
     (Faults \cap Unsol = {}) =>
         \A i \in 1 .. Len(results) : results[i].err = NIL => results[i].val.rid = results[i].rid
